@@ -524,16 +524,16 @@ let () =
             (Printf.sprintf "%d:o%s;" step (String.concat "," (List.map string_of_int (Array.to_list ps.v2l))));
         last_gc := ps.gc;
         (* C09: a snapshot, add_vars(k), a snapshot: replay add_vars on the extracted model *)
-        (* C08: a snapshot, level_down(i), a snapshot: replay the swap on the extracted level_swap (BDD) *)
+        (* C08: a snapshot, level_down(i), a snapshot: replay the swap on the extracted level_swap (BDD, MTBDD) *)
         (match !since, !prev_ps with
-         | [ ld ], Some pp when kname = "bdd" && List.mem "C08" !props && starts_with ld "LEVELDOWN " ->
+         | [ ld ], Some pp when (kname = "bdd" || kname = "mtbdd") && List.mem "C08" !props && starts_with ld "LEVELDOWN " ->
            check "C08";
            (match Lswap.check pp ps (int_of_string (String.sub ld 10 (String.length ld - 10))) with
             | Ok () -> ()
             | Error (kind, m) -> fail step "C08" kind m)
          (* a snapshot, set_var_order(_seq), a snapshot: replay on the extracted set_var_order_model; the
             concurrent variant (several workers and >= 65536 nodes) performs the swaps in no fixed order *)
-         | [ od ], Some pp when kname = "bdd" && List.mem "C08" !props && starts_with od "ORDER "
+         | [ od ], Some pp when (kname = "bdd" || kname = "mtbdd") && List.mem "C08" !props && starts_with od "ORDER "
                                 && (pp.inner < 65536 || param_int c "threads" 1 = 1) ->
            (match Lswap.check_order pp ps (List.map int_of_string (List.tl (split_ws od))) with
             | None -> ()
